@@ -417,3 +417,8 @@ def recover_ibc_client_obligation(run):
 
 
 obligation('C02', 'C02-RecoverIbcClient only the sudo address replaces an IBC client, and only a non-active one by an active one')(recover_ibc_client_obligation)
+
+
+# ----------------------------------------------------------------------------------------------------------------- constructors (shared with C18)
+from obligations import shared_ctor as _ctor
+obligation('C02', 'C02-N checked-action constructors: the executable action carries exactly the signer and the action it was built from (and, for Ics20Withdrawal, debits the bridge account only when one is named, otherwise the signer)')(_ctor.constructors_obligation)
